@@ -125,7 +125,9 @@ func (c *connectionRequest) connect(ctx context.Context) (*connectionResult, err
 			}
 			c.player.handleDisconnectWithReason(result.attemptedConn, reason, false)
 		}
-		c.player.resetInFlightConnection()
+		// The in-flight slot of this request's own attempt is released by internalConnect
+		// (resetIfInFlightIs). A request that was refused (in progress / already connected /
+		// canceled) never owned the slot and must not clear the one of the running request.
 	}
 	return result, err
 }
